@@ -8,6 +8,7 @@ import (
 	"math/big"
 	"os"
 	"sort"
+	"strings"
 
 	"golang.org/x/tools/go/ssa"
 
@@ -249,8 +250,9 @@ func (a *Analyzer) val(fr *frame, v ssa.Value) Value {
 	case *ssa.Global:
 		if a.heap != nil {
 			// Stage B: package-level variables are by-type memory (their
-			// initialisers are analysed as entry points)
-			return untrackedPtr()
+			// initialisers are analysed as entry points); a variable that is
+			// itself an Element has its own summary
+			return &Ptr{Sum: "var " + strings.ReplaceAll(v.String(), load.Module+"/", "")}
 		}
 		if v.Pkg != nil && load.IsModule(v.Pkg.Pkg) {
 			a.ensureInit(v.Pkg)
